@@ -353,8 +353,11 @@ def leg(ctx, rng, tmp, observe, what, families, which=None, n_per_family=1, prim
             elif fam == 'ugrid_quads1':
                 # all quadrilaterals, numbered from one, integer tables that need no padding (so none is declared): the arrays the
                 # convention works on can be the dataset's own
-                d = gen.ugrid(rng, mesh=gen.lattice_mesh(rng, 3, 2, variety=False, drop=False), invalid=False, supplied={'face_face'} if rng.random() < 0.5 else set(),
-                              start_index=1, fill='attr', transposed=False)
+                # (no optional table, no fill declared, in every run: C04-o3 - the conversion to zero-based done in place - had been
+                # caught only when the generator happened to declare no fill)
+                rng.random()
+                d = gen.ugrid(rng, mesh=gen.lattice_mesh(rng, 3, 2, variety=False, drop=False), invalid=False, supplied=set(),
+                              start_index=1, fill='none', transposed=False)
             elif fam == 'ugrid_edges':
                 # a one-based mesh that names an edge dimension and stores nothing on edges: the edges are derived
                 d = gen.ugrid(rng, w=6, h=4, invalid=False, supplied=set(), edge_dim_declared=True, phantom_edge_dim=True,
